@@ -124,7 +124,7 @@ def _run_locked(ctx, target, out_path, props_path, module, key, namespace, limit
         return
     lean_names = set(info.get("lean", []))
     ctx.extra[key + "_ssa_translated"] = info["translated"]
-    ctx.extra[key + "_ssa_partial"] = ["%s: %s" % (k["name"], k["reason"]) for k in info.get("partial", [])]
+    ctx.extra[key + "_ssa_partial"] = ["%s: %s" % (k["name"], k["reason"]) for k in (info.get("partial") or [])]
     ctx.extra[key + "_ssa_skipped"] = ["%s: %s" % (k["name"], k["reason"]) for k in info["skipped"]]
     ctx.extra[key + "_ssa_sha1"] = hashlib.sha1(open(out_path, "rb").read()).hexdigest()
     text = open(props_path).read()
